@@ -420,7 +420,11 @@ func ruleStop(c *Ctx) {
 			return nil
 		}
 		sp.Branch = func(t *Tracer, fr *Frame, i *ssa.If, dir bool) []Ev {
-			if f, _ := fieldLoad(i.Cond); f == fStopping && dir {
+			v, neg := i.Cond, false
+			if u, ok := v.(*ssa.UnOp); ok && u.Op == token.NOT {
+				v, neg = u.X, true
+			}
+			if f, _ := fieldLoad(v); f != nil && f == fStopping && dir != neg {
 				return []Ev{{Kind: "early"}}
 			}
 			if x, nn, ok := nilTest(i, dir); ok && !nn {
